@@ -136,15 +136,30 @@ func (l *Lexer) Next(t *Token) error {
 
 		return nil
 	case '.':
-		nr, nsz, err := l.decodeRune(start + sz)
-		if err == nil && nr == '*' {
-			l.position += sz + nsz
-			*t = Token{
-				Type:  ObjectWildcardToken,
-				Value: l.expression[start:l.position],
+		// Whitespace is insignificant between the dot and the wildcard.
+		next := start + sz
+		for {
+			nr, nsz, err := l.decodeRune(next)
+			if err != nil {
+				break
 			}
 
-			return nil
+			if nr == '\t' || nr == '\n' || nr == '\r' || nr == ' ' {
+				next += nsz
+				continue
+			}
+
+			if nr == '*' {
+				l.position = next + nsz
+				*t = Token{
+					Type:  ObjectWildcardToken,
+					Value: l.expression[start:l.position],
+				}
+
+				return nil
+			}
+
+			break
 		}
 
 		l.position += sz
